@@ -175,6 +175,18 @@ HandleElementResult SaslManager::handleElement(const QDomElement &el)
     }
 
     if (Success::fromDom(el)) {
+        // The server's final message may be carried by <success/> (RFC 6120 6.3.10). A mechanism that
+        // authenticates the server (SCRAM) must have verified it before the login counts as successful.
+        if (!m_saslClient->isFinished()) {
+            const auto data = parseBase64(el.text());
+            if (!data || data->isEmpty() || !m_saslClient->respond(*data) || !m_saslClient->isFinished()) {
+                finish(AuthError {
+                    u"Server sent <success/> without proving its identity"_s,
+                    AuthenticationError { AuthenticationError::ProcessingError, {}, {} },
+                });
+                return Finished;
+            }
+        }
         finish(QXmpp::Success());
         return Finished;
     } else if (auto challenge = Challenge::fromDom(el)) {
@@ -275,6 +287,16 @@ HandleElementResult Sasl2Manager::handleElement(const QDomElement &el)
             return Finished;
         }
     } else if (auto success = Success::fromDom(el)) {
+        // see SaslManager::handleElement(): SCRAM server signature arrives as <additional-data/>
+        if (!m_state->sasl->isFinished()) {
+            if (!success->additionalData || !m_state->sasl->respond(*success->additionalData) || !m_state->sasl->isFinished()) {
+                finish(AuthError {
+                    u"Server sent <success/> without proving its identity"_s,
+                    AuthenticationError { AuthenticationError::ProcessingError, {}, {} },
+                });
+                return Finished;
+            }
+        }
         finish(std::move(*success));
         return Finished;
     } else if (auto failure = Failure::fromDom(el)) {
